@@ -445,13 +445,13 @@ package priority
 //@   requires [*] dsc != nil && dsc.actual != nil
 //@   ensures [* C02 C07 C15] result <==> msum(dsc.actual) == 0
 //@   loop 0
-//@     invariant [*] forall k :: in($visited, k) ==> dsc.actual[k] == 0
+//@     invariant [* C02 C07] forall k :: in($visited, k) ==> dsc.actual[k] == 0
 
 //@ func (*Discipline).isDrainedInputs
 //@   requires [*] dsc != nil && dsc.inputs != nil
 //@   ensures [* C02 C07] result <==> (forall k :: dom(dsc.inputs, k) ==> dsc.inputs[k].Drained)
 //@   loop 0
-//@     invariant [*] forall k :: in($visited, k) ==> dsc.inputs[k].Drained
+//@     invariant [* C02 C07] forall k :: in($visited, k) ==> dsc.inputs[k].Drained
 
 //@ func (*Discipline).waitZeroActual
 //@   requires [*] WF(dsc)
